@@ -132,7 +132,7 @@ func (c06RaceWorld) Run(prop string, ch *zsim.Choices, trace bool) *RunResult {
 		nl := ch.Intn(5)
 		for i := 0; i < nl; i++ {
 			parent := loggers[ch.Intn(len(loggers))]
-			switch ch.Intn(7) {
+			switch ch.Intn(9) {
 			case 0, 1:
 				loggers = append(loggers, applyCtx(parent.With(), genOps(ch, 1+ch.Intn(3), 1, fmt.Sprintf("c%d_", i))).Logger())
 			case 2:
@@ -145,6 +145,10 @@ func (c06RaceWorld) Run(prop string, ch *zsim.Choices, trace bool) *RunResult {
 				loggers = append(loggers, parent.Sample(zerolog.LevelSampler{InfoSampler: &zerolog.BurstSampler{Burst: 2, Period: time.Second, NextSampler: &zerolog.BasicSampler{N: 2}}}))
 			case 6:
 				loggers = append(loggers, parent.With().Timestamp().Logger())
+			case 7:
+				loggers = append(loggers, parent.Sample(zerolog.RandomSampler(2)))
+			case 8:
+				loggers = append(loggers, parent.Sample(zerolog.LevelSampler{DebugSampler: zerolog.Often, InfoSampler: zerolog.Sometimes}))
 			}
 		}
 		zlog.Logger = root.With().Str("global", "g").Logger()
